@@ -1,6 +1,7 @@
 INIT ObsInit
 NEXT ObsNext
 CONSTANT Variant <- ObsVariant
+CONSTANT InfoVariant <- ObsInfoVariant
 INVARIANT WellFormed
 INVARIANT ObsC20
 INVARIANT ObsDrift
